@@ -92,9 +92,18 @@ class _OpxRange(ExcelWrapper.RangeData):
             formula = tuple(tuple(cls.cell_to_formula(cell) for cell in row)
                             for row in cells)
 
-        values = tuple(tuple(cell.value for cell in row)
+        values = tuple(tuple(cls.stored_value(cell) for cell in row)
                        for row in cells_dataonly)
         return ExcelWrapper.RangeData.__new__(cls, address, formula, values)
+
+    @classmethod
+    def stored_value(cls, cell_dataonly):
+        value = cell_dataonly.value
+        if value is None and getattr(cell_dataonly, 'data_type', '') == 'str':
+            # an empty text stored as the result of a formula: openpyxl reads
+            # the empty <v> as None, which would be: not yet calculated
+            value = ''
+        return value
 
     @classmethod
     def cell_to_formula(cls, cell):
@@ -141,7 +150,8 @@ class _OpxCell(_OpxRange):
     def __new__(cls, cell, cell_dataonly, address):
         assert isinstance(address, AddressCell)
         return ExcelWrapper.RangeData.__new__(
-            cls, address, cls.cell_to_formula(cell), cell_dataonly.value)
+            cls, address, cls.cell_to_formula(cell),
+            cls.stored_value(cell_dataonly))
 
 
 class ExcelOpxWrapper(ExcelWrapper):
